@@ -607,7 +607,7 @@ func (i *c10Inst) Key() string {
 		fmt.Fprintf(&b, "%s/%s/%d/%s/%s/%v;", p.Place, p.Via, p.Op, c10Hash(p.Payload), p.lived(), p.OffAtAdd)
 	}
 	fmt.Fprintf(&b, "|r%d h%d l%d last=%v first=%v|", i.reop, i.hdr, i.list, i.lastKind == "reopen", i.steps == 0)
-	b.WriteString(i.doc.VerifRelDump() + "|" + i.doc.VerifMediaDump() + "|" + strings.Join(i.doc.VerifPartNames(), ",") + "|" + c10DrawingDump(i.doc) + "|" + document.VerifGlobalsDump())
+	b.WriteString(i.doc.VerifRelDump() + "|" + i.doc.VerifMediaDump() + "|" + strings.Join(i.doc.VerifPartNames(), ",") + "|" + c10DrawingDump(i.doc) + "|" + document.VerifGlobalsDump() + "|" + i.doc.VerifShallowState())
 	return rep.Hash(b.String())
 }
 
